@@ -430,10 +430,12 @@ def main():
                             chains=(0,) if tier == "quick" else (0, 1))
     if tier == "thorough":
         allpairs = [(a, b) for a in rule_ops for b in rule_ops]
-        texts += F.f_rule_pairs(allpairs, consts=[0, 1, F.MASK], contexts=("stack",))
+        texts += F.f_rule_pairs(allpairs, consts=[0, 1, F.MASK], contexts=("stack",))[::3]
+        texts += F.f_rule_siblings(ops, consts=(0, 1))
         texts += F.f_exh(3)
     else:
         texts += F.f_exh(2)
+        texts += F.f_rule_siblings(ops, consts=(0, 1))[::4]
     texts = list(dict.fromkeys(texts))
     max_rel = 6
     tasks = []
@@ -446,6 +448,8 @@ def main():
     l2b = context_skeletons(both if tier == "quick" else [(a, b) for a in ops for b in ops], tier)
     if tier == "quick":
         l2b = [x for x in l2b if not x[1] or x[2] == 0][::3]
+    else:
+        l2b = l2b[::6]
     tasks.insert(0, (gasol.optset(), [("l2b",) + x for x in l2b], 12))
     tasks.insert(0, (gasol.optset(), [("l1",) + x for x in l1] + [("l2",) + x for x in slow_first], 1))
     allres, st3 = pool.run(tasks, "checks.c03:job", job_timeout=600)
